@@ -1039,10 +1039,137 @@ func genBig(rng *rand.Rand, keyLen, n int) corr.Case {
 	return corr.Case{Ops: g.ops, Tag: "big"}
 }
 
+// genFull: maps that fill (or nearly fill) all 256 slots of one stored 8-bit subtree - the node count byte of the
+// stored subtree is 0xff / 0xfe / 0xfd - followed by operations that read the stored subtree back: proofs, further
+// update batches (overwrite, delete, reinsert), reopen.
+//
+//	variant 0: key length 1, all 256 keys (the top subtree is full)
+//	variant 1: key length 2, one first byte with all 256 second bytes (a subtree one level down is full)
+//	variant 2: key length 2, every first byte once plus all second bytes under one of them (two full subtrees stacked)
+//	variant 3: key length 32, fixed first byte, all 256 second bytes, random tails
+//	variant 4: key length 12 or 38, fixed 2-byte prefix, all 256 third bytes (a subtree two levels down)
+//
+// missing = number of slots left free at first (0, 1 or 2: node counts 256, 255, 254); they are filled later.
+func genFull(rng *rand.Rand, variant, missing int, splitFirst bool) corr.Case {
+	keyLen := []int{1, 2, 2, 32, 12}[variant]
+	if variant == 4 && rng.Intn(2) == 0 {
+		keyLen = 38
+	}
+	fixed := byte(rng.Intn(256))
+	fixed2 := byte(rng.Intn(256))
+	slot := func(i int) []byte { // the key occupying slot i of the full subtree
+		k := make([]byte, keyLen)
+		switch variant {
+		case 0:
+			k[0] = byte(i)
+		case 1, 2:
+			k[0], k[1] = fixed, byte(i)
+		case 3:
+			k[0], k[1] = fixed, byte(i)
+		case 4:
+			k[0], k[1], k[2] = fixed, fixed2, byte(i)
+		}
+		return k
+	}
+	tails := map[int][]byte{}
+	keys := [][]byte{}
+	for i := 0; i < 256; i++ {
+		k := slot(i)
+		if variant >= 3 {
+			t := randBytes(rng, keyLen)
+			copy(t, k[:variant-1])
+			k = t
+			tails[i] = k
+		}
+		keys = append(keys, k)
+	}
+	if variant == 2 { // the top subtree full as well: one key under every other first byte
+		for b := 0; b < 256; b++ {
+			if byte(b) != fixed {
+				keys = append(keys, []byte{byte(b), byte(rng.Intn(256))})
+			}
+		}
+	}
+	free := map[int]bool{}
+	for len(free) < missing {
+		free[rng.Intn(256)] = true
+	}
+	g := &caseGen{rng: rng, tamper: 6,
+		mi: &mirror{keyLen: keyLen, sth: 8, db: newMemDB(), root: emptyHash, m: map[string][]byte{}, roots: [][]byte{emptyHash}}}
+	// query pool: the keys and near misses
+	g.pool = append([][]byte{}, keys...)
+	for i := 0; i < 20; i++ {
+		g.pool = append(g.pool, nearKey(rng, keys[rng.Intn(len(keys))], rng.Intn(8*keyLen)))
+	}
+	g.ops = []string{fmt.Sprintf("reset %d 8", keyLen)}
+	done := func() corr.Case { return corr.Case{Ops: g.ops, Tag: "full-subtree"} }
+	upd := func(b []kv) bool {
+		g.ops = append(g.ops, "update "+fmtBatch(b))
+		return g.mi.update(b)
+	}
+	first := []kv{}
+	for i, k := range keys {
+		if i < 256 && free[i] {
+			continue
+		}
+		first = append(first, kv{k, randBytes(rng, 32)})
+	}
+	rng.Shuffle(len(first), func(i, j int) { first[i], first[j] = first[j], first[i] })
+	if splitFirst { // the second batch completes the subtree written by the first one
+		cut := len(first) * (1 + rng.Intn(3)) / 4
+		if !upd(first[:cut]) || !upd(first[cut:]) {
+			return done()
+		}
+	} else if !upd(first) {
+		return done()
+	}
+	g.proveAndTamper() // reads the stored subtree back
+	if rng.Intn(2) == 0 {
+		g.ops = append(g.ops, "reopen")
+	}
+	// fill the free slots (now exactly 256 nodes), overwrite and delete a few others
+	second := []kv{}
+	for i := range free {
+		second = append(second, kv{keys[i], randBytes(rng, 32)})
+	}
+	deleted := [][]byte{}
+	for n := 0; n < 1+rng.Intn(6); n++ {
+		k := keys[rng.Intn(len(keys))]
+		if rng.Intn(2) == 0 {
+			second = append(second, kv{k, randBytes(rng, 32)})
+		} else {
+			second = append(second, kv{k, []byte{}})
+			deleted = append(deleted, k)
+		}
+	}
+	if !upd(second) {
+		return done()
+	}
+	g.ops = append(g.ops, "reopen")
+	g.proveAndTamper()
+	// reinsert what was deleted: full again
+	third := []kv{}
+	for _, k := range deleted {
+		third = append(third, kv{k, randBytes(rng, 32)})
+	}
+	third = append(third, kv{keys[rng.Intn(len(keys))], randBytes(rng, 32)})
+	if !upd(third) {
+		return done()
+	}
+	g.proveAndTamper()
+	g.ops = append(g.ops, "reopen")
+	// and a last batch after the full subtree was stored once more
+	if !upd([]kv{{keys[rng.Intn(len(keys))], []byte{}}, {nearKey(rng, keys[0], 8*keyLen-1-rng.Intn(4)), randBytes(rng, 32)}}) {
+		return done()
+	}
+	g.proveAndTamper()
+	return done()
+}
+
 func (prop) Generate(rng *rand.Rand, tier string) []corr.Case {
-	nHist, nEvent, nBig, bigN := 260, 40, 2, 600
+	nHist, nEvent, nBig, bigN, nFull := 260, 40, 2, 600, 8
 	if tier == "thorough" {
-		nHist, nEvent, nBig, bigN = 4000, 400, 20, 3000
+		nHist, nEvent, nBig, bigN, nFull = 4000, 400, 20, 3000, 80
 	}
 	cases := []corr.Case{}
 	for i := 0; i < nHist; i++ {
@@ -1064,6 +1191,18 @@ func (prop) Generate(rng *rand.Rand, tier string) []corr.Case {
 		keyLen := []int{32, 38, 12, 2}[i%4]
 		n := bigN/2 + rng.Intn(bigN)
 		cases = append(cases, genBig(rng, keyLen, n))
+	}
+	// full and nearly full stored subtrees (appended last so that the cases above keep their seeds)
+	for i := 0; i < nFull; i++ {
+		variant := i % 5
+		missing := 0
+		switch {
+		case i == 5 || i == 6:
+			missing = i - 4 // 255 and 254 nodes first, filled up later
+		case i > 6:
+			missing = rng.Intn(3)
+		}
+		cases = append(cases, genFull(rng, variant, missing, i%2 == 1))
 	}
 	return cases
 }
